@@ -27,6 +27,7 @@ import (
 	"github.com/libp2p/go-libp2p"
 	"github.com/libp2p/go-libp2p/core/crypto"
 	"github.com/libp2p/go-libp2p/core/host"
+	"github.com/libp2p/go-libp2p/core/network"
 	"github.com/libp2p/go-libp2p/core/peer"
 	"github.com/libp2p/go-libp2p/core/protocol"
 	"google.golang.org/protobuf/proto"
@@ -772,13 +773,22 @@ func TestExec(t *testing.T) {
 	for i := 0; i < maxN; i++ {
 		seed := sha256.Sum256([]byte(fmt.Sprintf("verif c13 member %d", i)))
 		key := k1.PrivKeyFromBytes(seed[:])
-		h, err := libp2p.New(libp2p.Identity((*crypto.Secp256k1PrivateKey)(key)), libp2p.NoListenAddrs)
+		// loopback listeners: the members hold REAL connections to each other (the handlers are still driven through the
+		// in-process transport), so that a member can drop all its connections and come back (schedule step Reconnect)
+		h, err := libp2p.New(libp2p.Identity((*crypto.Secp256k1PrivateKey)(key)), libp2p.ListenAddrStrings("/ip4/127.0.0.1/tcp/0"))
 		if err != nil {
 			t.Fatalf("host: %v", err)
 		}
 		defer h.Close()
 		hosts = append(hosts, h)
 		keys = append(keys, key)
+	}
+	for i, a := range hosts {
+		for _, b := range hosts[i+1:] {
+			cctx, ccancel := context.WithTimeout(context.Background(), 10*time.Second)
+			_ = a.Connect(cctx, peer.AddrInfo{ID: b.ID(), Addrs: b.Addrs()}) // coverage only: a failed dial leaves the pair unconnected
+			ccancel()
+		}
 	}
 
 	for i, s := range scheds {
@@ -818,6 +828,41 @@ func runOne(t *testing.T, tr *drv.Tracer, hosts []host.Host, keys []*k1.PrivateK
 		id := drv.Str(st["id"])
 		pl := decode[payload](st["pl"])
 		switch drv.Str(st["ev"]) {
+		case "Reconnect":
+			// member m closes every connection it has and dials the others again: for the others it was gone and is back.
+			// Nothing in the contract depends on connections, so the event changes nothing in the specification; the waits
+			// only give the hosts' disconnect notifications time to be delivered (coverage, no verdict).
+			m := drv.Num(st["m"])
+			if m < 1 || m > len(hosts) {
+				continue
+			}
+			me := hosts[m-1]
+			for i, h := range hosts {
+				if i != m-1 {
+					_ = me.Network().ClosePeer(h.ID())
+				}
+			}
+			for tries := 0; tries < 100; tries++ {
+				gone := true
+				for i, h := range hosts {
+					if i != m-1 && h.Network().Connectedness(me.ID()) == network.Connected {
+						gone = false
+					}
+				}
+				if gone {
+					break
+				}
+				time.Sleep(10 * time.Millisecond)
+			}
+			time.Sleep(50 * time.Millisecond)
+			for i, h := range hosts {
+				if i != m-1 {
+					cctx, ccancel := context.WithTimeout(context.Background(), 5*time.Second)
+					_ = me.Connect(cctx, peer.AddrInfo{ID: h.ID(), Addrs: h.Addrs()})
+					ccancel()
+				}
+			}
+			tr.Emit(drv.Step{"ev": "Reconnect", "m": m})
 		case "Bcast":
 			h := drv.Num(st["h"])
 			if !honest(h, s) {
